@@ -2,6 +2,9 @@
 (* Finite instances of Receive.tla: a 2-byte prefix, 1-byte circuit ids, bytes 0..3.               *)
 (*   layout : every sequence of <= MaxOps table operations over 7 listeners, small datagrams        *)
 (*   bytes  : four fixed layouts (as the overlays build them) x every byte string up to MaxLen      *)
+(*   tables : the circuit tables as state - every sequence of RemoveTun / Tick / Sweep from a relay  *)
+(*            pair, a rendezvous link, a circuit and an enabled exit socket, with every cell (valid / *)
+(*            garbage body) and every exit-socket datagram of XHeads in between                       *)
 EXTENDS Receive
 
 CONSTANTS MaxLen, Mode
@@ -10,20 +13,27 @@ Alphabet == 0..3
 PA == <<0, 1>>
 PB == <<0, 2>>
 PT == <<0, 3>>
-L0 == [kind |-> "sink", prefix |-> <<>>, handlers |-> {}, priv |-> {}, comm |-> 0, anon |-> FALSE, tracked |-> {}]
+L0 == [kind |-> "sink", prefix |-> <<>>, handlers |-> {}, priv |-> {}, comm |-> 0, anon |-> FALSE, tracked |-> {},
+       xbt |-> FALSE, xipv8 |-> FALSE, dev |-> {}]
 MCDesc == << [L0 EXCEPT !.kind = "community", !.prefix = PA, !.handlers = {1, 2}],              \* 1  overlay A
              [L0 EXCEPT !.kind = "community", !.prefix = PA, !.handlers = {2, 3}],              \* 2  shares A's prefix
              [L0 EXCEPT !.kind = "community", !.prefix = PB, !.handlers = {0, 1}, !.anon = TRUE],\* 3  overlay B
-             [L0 EXCEPT !.kind = "community", !.prefix = PT, !.handlers = {0, 3}, !.priv = {1, 2, 3}], \* 4 tunnel overlay
+             [L0 EXCEPT !.kind = "community", !.prefix = PT, !.handlers = {0, 3}, !.priv = {1, 2, 3}, !.xbt = TRUE], \* 4 tunnel overlay
              [L0 EXCEPT !.kind = "crypto", !.prefix = PT, !.comm = 4],                          \* 5  its crypto endpoint
              L0,                                                                                \* 6  recording sink
              [L0 EXCEPT !.kind = "stats", !.tracked = {PA, PT}] >>                               \* 7  statistics
 MCLids == IF Mode = "layout" THEN {1, 2, 5, 6} ELSE 1..7
 MCPfxs == IF Mode = "layout" THEN {PA, PT} ELSE {PA, PB, PT}
 
-Tun(c) == [circuits |-> {<<1>>}, exits |-> {<<3>>}, relays |-> (<<2>> :> [dir |-> "fwd", count |-> c])]
-TunB   == [circuits |-> {<<1>>}, exits |-> {}, relays |-> (<<2>> :> [dir |-> "bwd", count |-> 1] @@ <<3>> :> [dir |-> "fwd", count |-> 1])]
-MCTuns == IF Mode = "layout" THEN {} ELSE IF MaxLen <= 7 THEN {Tun(2), TunB} ELSE {Tun(1), Tun(2), TunB}
+R(dir, c, to, rdv) == [dir |-> dir, count |-> c, to |-> to, rdv |-> rdv]
+(* Tun(c): the opposite route <<0>> of relay <<2>> does not exist (any more) *)
+Tun(c) == [circuits |-> {<<1>>}, exits |-> {<<3>>}, relays |-> (<<2>> :> R("fwd", c, <<0>>, FALSE)), stale |-> {}, xon |-> {}]
+TunB   == [circuits |-> {<<1>>}, exits |-> {}, relays |-> (<<2>> :> R("bwd", 1, <<3>>, FALSE) @@ <<3>> :> R("fwd", 1, <<2>>, FALSE)),
+           stale |-> {}, xon |-> {}]
+(* a rendezvous link (both routes decrypt with their own keys, encrypt with the keys of the other) + an enabled exit *)
+TunR   == [circuits |-> {}, exits |-> {<<1>>}, relays |-> (<<2>> :> R("fwd", 1, <<3>>, TRUE) @@ <<3>> :> R("fwd", 1, <<2>>, TRUE)),
+           stale |-> {}, xon |-> {<<1>>}]
+MCTuns == IF Mode \in {"layout", "tables"} THEN {} ELSE IF MaxLen <= 7 THEN {Tun(2), TunB} ELSE {Tun(1), Tun(2), TunB}
 
 (* per-position alphabets: first byte right/foreign, circuit id, the two flag bytes, first message byte *)
 Alpha(i) == CASE i = 1 -> {0, 1} [] i = PL + CidLen + 2 -> {0, 1} [] i = PL + CidLen + 3 -> {0, 1}
@@ -33,13 +43,28 @@ HeadsOfLen(k) == IF k = 0 THEN {<<>>} ELSE {Append(h, b) : h \in HeadsOfLen(k - 
 Heads(n) == UNION {HeadsOfLen(k) : k \in 0..n}
 KnownCell(h) == /\ Len(h) >= HdrLen /\ SubSeq(h, 1, PL) = PT /\ h[PL + 1] = CellId
                 /\ h[PL + 2] # 0 /\ h[PL + CidLen + 2] = 0
-Inners == {<<>>, <<0>>, <<1>>, <<2>>, <<3>>, <<1, 1>>}
+Inners == IF Mode = "tables" THEN {<<>>, <<1>>} ELSE {<<>>, <<0>>, <<1>>, <<2>>, <<3>>, <<1, 1>>}
 PktsOf(h) == IF KnownCell(h)
              THEN {[len |-> Len(h), head |-> h, enc |-> "garbage", inner |-> <<>>]} \cup
                   {[len |-> Len(h), head |-> h, enc |-> "valid", inner |-> i] : i \in Inners}
              ELSE {[len |-> Len(h), head |-> h, enc |-> "none", inner |-> <<>>]}
 SmallHeads == {<<>>, <<0>>, PA, PT, <<0, 0>>, PA \o <<1>>, PA \o <<2>>, PT \o <<0>>, PT \o <<3>>, <<0, 0, 1>>}
-MCPkts == UNION {PktsOf(h) : h \in IF Mode = "layout" THEN SmallHeads ELSE Heads(MaxLen)}
+CellHeads == {PT \o <<CellId, c, pl, ea>> \o t : c \in 0..3, pl \in {0, 1}, ea \in {0, 1}, t \in {<<>>, <<3>>}}
+MCVias == IF Mode = "tables" THEN {<<"udp", FALSE>>} ELSE {<<"udp", FALSE>>, <<"tunnel", FALSE>>, <<"tunnel", TRUE>>}
+MCPkts == UNION {PktsOf(h) : h \in IF Mode = "layout" THEN SmallHeads ELSE IF Mode = "tables" THEN CellHeads
+                                    ELSE Heads(MaxLen)}
+
+(* datagrams for an exit socket: per-position alphabets around the values DataChecker looks at, every length up to 13 *)
+(* and zero-padded to the lengths where the uTP / IPv8 length checks sit                                               *)
+XAlpha(i) == CASE i = 1 -> {0, 1, 65, 100}  [] i = 2 -> {0, 3, 4, 101}  [] i = 4 -> {0, 3, 4}
+               [] i = 9 -> {0, 7}  [] i = 12 -> {3, 4}  [] i = 13 -> {0, 101}  [] OTHER -> {0}
+RECURSIVE XHeadsOfLen(_)
+XHeadsOfLen(k) == IF k = 0 THEN {<<>>} ELSE {Append(h, b) : h \in XHeadsOfLen(k - 1), b \in XAlpha(k)}
+Pad(h, n) == h \o [i \in 1..(n - Len(h)) |-> 0]
+XFew == {[len |-> 9, head |-> <<255, 0, 0, 0, 0, 0, 0, 0, 0>>, lastb |-> 0], [len |-> 2, head |-> <<100, 101>>, lastb |-> 101]}
+MCXPkts == IF Mode # "tables" THEN {} ELSE IF MaxLen = 0 THEN XFew      \* (MaxLen = 0: the -continue control runs)
+           ELSE {[len |-> Len(h), head |-> h, lastb |-> IF h = <<>> THEN 0 ELSE h[Len(h)]] : h \in UNION {XHeadsOfLen(k) : k \in 0..13}}
+                \cup {[len |-> n, head |-> Pad(h, n), lastb |-> b] : h \in XHeadsOfLen(4), n \in {19, 20, 21}, b \in {0, 101}}
 
 RECURSIVE Fold(_, _)
 Fold(T, ops) == IF ops = <<>> THEN T
@@ -58,15 +83,41 @@ MCWorlds == IF MaxLen <= 7 THEN { <<Lay2, Tun(2)>>, <<Lay4, TunB>> }
             ELSE { <<Lay1, Tun(1)>>, <<Lay2, Tun(1)>>, <<Lay2, Tun(2)>>, <<Lay2, TunB>>,
                    <<Lay3, Tun(1)>>, <<Lay3, Tun(2)>>, <<Lay4, TunB>> }
 
-MCInit == /\ desc = MCDesc
+(* tables mode: the relay pair / the rendezvous link with the default exit policy, and an exit socket alone with every *)
+(* combination of the two exit flags (the only place where they matter)                                               *)
+TunX   == [circuits |-> {}, exits |-> {<<1>>}, relays |-> <<>>, stale |-> {}, xon |-> {<<1>>}]
+(* "pair" hides "rdv" (process_cell comes before relay_cell): a control run tries them one after the other *)
+MCDevSets == IF {"pair", "rdv"} \subseteq Dev THEN {Dev \ {"rdv"}, {"rdv"}} ELSE {Dev}
+MCInit == /\ IF Mode = "tables"
+             THEN \E dv \in MCDevSets :
+                  \/ desc = [MCDesc EXCEPT ![4].dev = dv] /\ tun \in {TunB, TunR}
+                  \/ tun = TunX /\ \E b \in BOOLEAN, v \in BOOLEAN :
+                                     desc = [MCDesc EXCEPT ![4].xbt = b, ![4].xipv8 = v, ![4].dev = dv]
+             ELSE desc = MCDesc
           /\ open = TRUE
           /\ last = NoLast /\ nops = 0 /\ nrecv = 0
           /\ IF Mode = "bytes" THEN \E w \in MCWorlds : tab = w[1] /\ tun = w[2]
+             ELSE IF Mode = "tables" THEN tab = Lay4
              ELSE tab = EmptyTab /\ tun = Tun(1)
 MCSpec == MCInit /\ [][Next]_vars
+(* tables mode: deliveries alternate with table actions (consecutive deliveries are what the bytes mode explores) *)
+TReceive     == last = NoLast /\ DoReceive
+(* what an exit socket does with a datagram depends on the datagram and the exit policy only: the whole alphabet is *)
+(* explored where the socket stands alone, two datagrams (one dropped, one forwarded) in the other table states       *)
+TExitReceive == /\ last = NoLast /\ nrecv < MaxRecv
+                /\ \E o \in DOMAIN desc, x \in tun.xon, p \in (IF tun = TunX THEN XPkts \cup XFew ELSE XFew) :
+                     \E fam \in (IF p \in XFew THEN {"v4", "v6", "v6mapped"} ELSE {"v4"}) : ExitReceive(o, x, p, fam)
+MCNextT == DoRemoveTun \/ DoTick \/ DoSweep \/ TReceive \/ TExitReceive
+MCSpecT == MCInit /\ [][MCNextT]_vars
 
 (* "sometimes" witnesses, expected to be violated (vacuity check of the invariants' antecedents) *)
 NeverHandler == last.via # "none" => \A i \in DOMAIN last.log : last.log[i].h = <<>>
 NeverCircuitHandler == last.via # "none" => \A i \in DOMAIN last.log : \A j \in DOMAIN last.log[i].h : last.log[i].h[j][1] # "c"
 NeverRelayed == last.via # "none" => ~RelayedIn(last.log)
+NeverHalf == \A c \in DOMAIN tun.relays : tun.relays[c].to \in DOMAIN tun.relays   \* (TunOps = {"tick", "sweep"}: by time alone)
+NeverHalfRelayed == last.via = "udp" => ~(RelayedIn(last.log) /\ last.half)
+NeverHalfRdv     == last.via = "udp" => ~(last.half /\ last.pkt.enc = "valid" /\ ~Plain(last.pkt) /\ Cid(last.pkt) \in DOMAIN tun.relays
+                                           /\ tun.relays[Cid(last.pkt)].rdv)
+NeverExitForwarded == last.via = "exit" => ~RelayedIn(last.log)
+NeverExitDropped   == last.via = "exit" => RelayedIn(last.log)
 =============================================================================
